@@ -304,6 +304,28 @@ class Pipe:
         self._after(y, F(t), n, "snippet(%s,%s,%s)" % (form, t, n))
         self.st.label("op_snip_" + form + ("_whole" if whole else "_frac"))
 
+    def op_set_rate(self, fac):
+        """assign a new sample rate to the CURRENT object through its public setter (per-object caches of dt etc. must follow)"""
+        newq = self.z.sample_rate * fac
+        with lib("sample_rate assignment"):
+            self.z.sample_rate = newq
+            if self.spec["cls"] in G.BASEBAND:
+                self.z.chan_bw = newq  # (baseband: channel width = sample rate)
+        self.r = O.hz(newq)
+        self.nops += 1
+        check_clock(self.z, self.T, self.r, self.L, self.nops, self.off, self.nsteps, f"op{self.nops}:sample_rate *= {fac}")
+        self.st.label("op_set_rate")
+
+    def op_set_start(self, t0):
+        t = G.mk_time(t0)
+        with lib("start_time assignment"):
+            self.z.start_time = t
+        self.T = None if t is None else O.T(t)
+        self.off = F(0)
+        self.nops += 1
+        check_clock(self.z, self.T, self.r, self.L, self.nops, self.off, self.nsteps, f"op{self.nops}:start_time = {t0}")
+        self.st.label("op_set_start")
+
     def _band_edges(self):
         cf, bw, nchan = O.hz(self.z.center_freq), O.hz(self.z.chan_bw), self.z.shape[1]
         return cf - bw * nchan / 2, cf + bw * nchan / 2, cf
@@ -455,6 +477,14 @@ class PipeMachine(HistoryMachine):
                 t = float(int(t))
         self.do(["snip", form, t, n])
 
+    @rule(fac=st.sampled_from([2.0, 0.5, 4.0, 0.25, 3.0, 1.0]))
+    def set_rate(self, fac):
+        self.do(["set_rate", fac])
+
+    @rule(t0=G.time0())
+    def set_start(self, t0):
+        self.do(["set_start", t0])
+
     @precondition(lambda self: self.model.spec["cls"] in G.BASEBAND and self.model.L >= 2)
     @rule(dm=st.tuples(st.sampled_from([-1, 1]), st.floats(-4, 3)).map(lambda t: t[0] * 10 ** t[1]),
           ref=st.sampled_from(["none", "center", "lo", "hi", "above", "below", "inside"]))
@@ -475,7 +505,7 @@ SUBS = [
         quick=2500, thorough=60000),
     MachineSub("pipeline", PipeMachine,
                "rule-based machine: slices, fast_len, cropped time shifts (scalar/array/time, integer/fractional), snippets in all "
-               "forms, coherent and incoherent dedispersion, ledger checked after every step; non-trivial = >=2 steps that drop "
+               "forms, coherent and incoherent dedispersion, sample_rate / start_time assignment on the current object, ledger checked after every step; non-trivial = >=2 steps that drop "
                "leading samples, or >=1 at rate >= 1 MHz",
                quick=400, thorough=8000, steps_quick=7, steps_thorough=12, pieces_quick=4),
 ]
